@@ -755,8 +755,10 @@ class introduction(Method):
         cur_item.subproof = pt.export(prefix=id)
         state.check_proof(compute_only=True)
 
-        # Test if the goal is already proved
-        for item in cur_item.subproof.items:
+        # Test if the goal is already proved. The last item is the intros
+        # step closing the subproof: it must stay, even if an earlier line
+        # (for instance a gap) states the same sequent.
+        for item in cur_item.subproof.items[:-1]:
             new_id = state.find_goal(state.get_proof_item(item.id).th, item.id)
             if new_id is not None:
                 state.replace_id(item.id, new_id)
